@@ -1,0 +1,28 @@
+// Copyright The Notary Project Authors.
+// Licensed under the Apache License, Version 2.0 (the "License");
+// you may not use this file except in compliance with the License.
+// You may obtain a copy of the License at
+//
+// http://www.apache.org/licenses/LICENSE-2.0
+//
+// Unless required by applicable law or agreed to in writing, software
+// distributed under the License is distributed on an "AS IS" BASIS,
+// WITHOUT WARRANTIES OR CONDITIONS OF ANY KIND, either express or implied.
+// See the License for the specific language governing permissions and
+// limitations under the License.
+
+//go:build verif
+
+package file
+
+// VerifHook, when set, is called at the step boundaries of WriteFile
+// ("created", "written", "closed", "returned") with the temporary file name.
+// It exists only under the verif build tag and is used by external
+// verification harnesses to hold or crash a writer at a chosen step.
+var VerifHook func(step, tempName string)
+
+func verifHook(step, tempName string) {
+	if h := VerifHook; h != nil {
+		h(step, tempName)
+	}
+}
